@@ -58,7 +58,7 @@ func (m *ParamLab) Name() string { return "paramlab" }
 func (m *ParamLab) Weight() int  { return 0 }
 
 func (m *ParamLab) Configure(w *engine.World, r *engine.Rand) any {
-	return LabConfig{PLab: 0.15 + 0.3*r.Float(), PGenesis: 0.2, Max: 12 + r.Intn(20), Ops: 3 + r.Intn(8)}
+	return LabConfig{PLab: 0.25 + 0.35*r.Float(), PGenesis: 0.2, Max: 18 + r.Intn(30), Ops: 3 + r.Intn(8)}
 }
 
 func (m *ParamLab) LoadConfig(w *engine.World, raw json.RawMessage) {
